@@ -7,3 +7,4 @@ import MiniconfVerif.Props.C09
 #print axioms MiniconfVerif.C09.order
 #print axioms MiniconfVerif.C09.widthsAgree_kid
 #print axioms MiniconfVerif.C09.append_stable
+#print axioms MiniconfVerif.C09.source_packed_keys_are_model
